@@ -23,7 +23,7 @@ CHECKS = {
    technique="deterministic simulation: schedule search with structural invariants and a reference edge model"),
  "C11": dict(level="exploration", design="§5.4",
    text="On every schedule's finished graph separately: function entries are exactly the labels named by calls (read off the source text by the harness's own reader) or installed as interrupt handler; cfg.functions() has exactly those labels, all labels of one entry mapping to one function; each function's node list equals what an independent traversal reaches from its entry and per-node owner lists agree; each function has one exit, a return it reaches, every other return of it rewritten to lead to that exit; node-in-many-functions is reported iff two functions share a node. Workload rich in several labels per entry, interleaved bodies, forward and backward shared tails, fall-through entry, recursion, callers in dead code, 1-3 returns.",
-   note="Programs the analyzer rejects (function without return, CFG errors) are outside F1-F4 (C16's subject) and counted. One open known finding (KF-C11-1: a function reaching the exits of two other functions keeps two returns), matched by class and two features.",
+   note="Programs the analyzer rejects (function without return, CFG errors) are outside F1-F4 (C16's subject) and counted. The former open finding KF-C11-1 (a function reaching the exits of two other functions kept two returns) was repaired in /repo (ebf26fb); its reverse patch is a seeded case.",
    technique="deterministic simulation: schedule search with an independent traversal as oracle"),
  "C12": dict(level="exploration", design="§5.5",
    text="Histories of 1-8 extra runs of AvailableValuePass / EcallTerminationPass / LivenessPass / run_diagnostics applied to the finished graph: after every step the snapshot (edges by identity, seven fact kinds per node, functions) and the lint items equal those right after the pipeline; a second analysis of the same parsed nodes on one thread and the analyses under further entropy seeds give equal snapshots; sweeps per pass run (from the tick hook) stay within 4*nodes+16 and a hard cap turns oscillation into a reported non-convergence; the facts satisfy the analyses' own equations on the finished graph (what a node assumes on entry is left by every predecessor, live_out is the union of the successors' live_in); and a fixed scaling scenario (one program family at size m and 2m) requires the sweeps per node not to grow with the program.",
@@ -83,7 +83,7 @@ def main():
       }],
       "checks": checks,
       "not_applicable": na,
-      "notes": "Technique family: deterministic simulation with fault injection. See DESIGN.md. Known findings / fixed defects: /verif/known_findings.json (one open finding, KF-C11-1; repairs listed under 'fixed', each with its reverse patch under /verif/seeded/revert-<commit>/). Determinism proof: ./check determinism <ID> <N>. Seeded changes and what catches them: /verif/seeded/RESULTS.md.",
+      "notes": "Technique family: deterministic simulation with fault injection. See DESIGN.md. Known findings / fixed defects: /verif/known_findings.json (no open finding; repairs listed under 'fixed', the later ones each with its reverse patch under /verif/seeded/revert-<commit>/). Determinism proof: ./check determinism <ID> <N>. Seeded changes and what catches them: /verif/seeded/RESULTS.md.",
     }
     json.dump(m, open("/verif/MANIFEST.json","w"), indent=1)
     print("MANIFEST.json written:", [c["property_id"] for c in checks])
